@@ -92,7 +92,7 @@ fn run(ctx: &mut Ctx) {
     let u = Universe::u1().lifted("lift:case", LIFTS[5].1);
     ctx.exhaustive("U1-case", u.subset_count(), &|i| Case::new(u.subset(i + 1), ci.clone()), &case_fn);
 
-    let total = ctx.tier.pick(30_000, 600_000);
+    let total = ctx.tier.pick(60_000, 600_000);
     let max_ops = ctx.tier.pick(5, 10);
     let strat = move || case_strategy(&["cased", "cased", "abc", "marks", "digits"], true, W_CASE, max_ops, 4, fix);
     ctx.generated("gen", &strat, total, &|s, c, st| {
